@@ -144,7 +144,7 @@ def verdicts(ctx, run, sched, hz, obs, stop, early, src, case):
 def one(ctx, schema, doc, src, variables, value_fn, seed, p_async, policy, early, stop, with_signal, base_case):
     case = {**base_case, "schedule_seed": seed, "p_async": p_async, "policy": policy, "early": early, "stop": repr(stop), "with_signal": with_signal}
     run, sched, hz, obs = run_incremental(schema, doc, variables, value_fn, seed, p_async=p_async, policy=policy, early=early, stop=stop,
-                                          with_signal=with_signal, p_iter=0.35)
+                                          with_signal=with_signal, p_iter=0.9 if base_case["seed"] % 11 == 6 else 0.35)
     try:
         ctx.case()
         if stop is None:
@@ -175,7 +175,7 @@ def check_request(ctx, seed, k):
     for early in (False, True):
         s0 = seed * 1000 + (1 if early else 0)
         p_async = rng.choice([0.3, 0.7, 1.0])
-        policy = rng.choice(['random', 'fifo', 'lifo'])
+        policy = rng.choice(['random', 'fifo', 'lifo', 'slow-source', 'slow-consumer', 'phases', 'burst'])
         # the unstopped run tells how many payloads there are (and is itself a resolver/source-failure run)
         obs = one(ctx, schema, doc, src, variables, value_fn, s0, p_async, policy, early, None, rng.random() < 0.3, base_case)
         if obs is None or obs.kind != 'incremental':
